@@ -496,22 +496,75 @@ func runC06Position(c *Ctx) {
 	// structural: a comparison of a string with "Feature" whose failure leads to an error return,
 	// and lookups of "type" and "geometry" whose !ok leads to an error return
 	cmpFeature, hasType, hasGeom := false, false, false
-	eachInstr(fu, func(in ssa.Instruction) {
-		switch x := in.(type) {
-		case *ssa.BinOp:
-			if s, ok := constString(x.Y); ok && s == "Feature" {
-				cmpFeature = true
-			}
-		case *ssa.Lookup:
-			if s, ok := constString(x.Index); ok && x.CommaOk {
-				if s == "type" {
-					hasType = true
+	group := withNewHelpers(fu)
+	// the names a comma-ok lookup can be made with: a constant, or the constants
+	// its (new) helper is called with
+	namesOf := func(g *ssa.Function, idx ssa.Value) []string {
+		if s, ok := constString(idx); ok {
+			return []string{s}
+		}
+		par, ok := idx.(*ssa.Parameter)
+		if !ok || g == fu {
+			return nil
+		}
+		pi := paramIndex(g, par)
+		var out []string
+		for _, h := range group {
+			eachCall(h, func(call ssa.CallInstruction) {
+				if staticCallee(call) == g && pi >= 0 && pi < len(call.Common().Args) {
+					if s, ok := constString(call.Common().Args[pi]); ok {
+						out = append(out, s)
+					}
 				}
-				if s == "geometry" {
-					hasGeom = true
+			})
+		}
+		return out
+	}
+	// a missing member must end in an error: where the ok flag is branched on
+	// directly, the not-ok side returns a non-nil error
+	missingIsError := func(x *ssa.Lookup) bool {
+		for _, r := range *x.Referrers() {
+			ex, ok := r.(*ssa.Extract)
+			if !ok || ex.Index != 1 {
+				continue
+			}
+			for _, r2 := range *ex.Referrers() {
+				ifi, ok := r2.(*ssa.If)
+				if !ok {
+					continue
+				}
+				nb := ifi.Block().Succs[1]
+				if ret, ok := nb.Instrs[len(nb.Instrs)-1].(*ssa.Return); ok && len(nb.Instrs) <= 4 && len(ret.Results) > 0 && isErrorType(ret.Results[len(ret.Results)-1].Type()) {
+					return provablyNonNilErr(ret)
 				}
 			}
 		}
-	})
+		return true // another shape: not judged here
+	}
+	for _, g := range group {
+		eachInstr(g, func(in ssa.Instruction) {
+			switch x := in.(type) {
+			case *ssa.BinOp:
+				if s, ok := constString(x.Y); ok && s == "Feature" {
+					cmpFeature = true
+				}
+				if s, ok := constString(x.X); ok && s == "Feature" {
+					cmpFeature = true
+				}
+			case *ssa.Lookup:
+				if !x.CommaOk || !missingIsError(x) {
+					return
+				}
+				for _, s := range namesOf(g, x.Index) {
+					if s == "type" {
+						hasType = true
+					}
+					if s == "geometry" {
+						hasGeom = true
+					}
+				}
+			}
+		})
+	}
 	c.Check(cmpFeature && hasType && hasGeom, fu.Pos(), FuncName(fu), "required members of a Feature", "\"type\" must exist and equal \"Feature\"; \"geometry\" must exist", "Feature decoding no longer checks that \"type\" exists and equals \"Feature\" and that \"geometry\" exists")
 }
